@@ -1,6 +1,6 @@
 \* quick: numbers with <= 4 integer and 2 fraction digits in blocks of 40 around the rounding, padding, grouping and
 \* scaling boundaries, both signs, under every catalogue format
-CONSTANTS I = 4 F = 2 KMax = 4 Block = 40
+CONSTANTS I = 4 F = 2 KMax = 4 Block = 20
 CONSTANTS Catalogue <- MCCatalogue Starts <- QuickStarts MCDev = {}
 SPECIFICATION Spec2
 INVARIANTS TypeOK2 CatalogueOK OneSection NumValue Placeholders Grouping LiteralsKept NegByPosition AutoMinus SciValue SciZero FracValue Calendar ClockOK DateOut
